@@ -13,6 +13,8 @@ TEXT = {
          "Trusted: Coq kernel, translator (min_int_dtype), extraction, harness. The JSON round trip and 'user schema honoured' clauses are decided by the differential run on the implementation, not by a theorem (partial)."),
  "C13": ("Coq theorem overlap_check_complete: after sorting by (contig index, start) the TRANSLATED check_overlapping_partitions accepts exactly the partition lists in which no two partitions intersect on a contig (iff, for any number of partitions and any file order), accepted_sorted, unset_end_never_accepted, duplicate_path_rejected, incompatible_header_rejected, reserved_info/format_name_rejected (incl. the 'length' clash via array creation), undeclared_filter_rejected; tied by in-process differential on generated interval sets and end-to-end conversions of cut file sets, header perturbations, reserved names and undeclared filters ('no finished store after an error' checked).",
          "Trusted: Coq kernel, translator (check_overlapping_partitions), extraction, harness; header equality is dataclass equality of the scanned metadata (modelled as an opaque id); zarr's refusal to create an existing array."),
+ "C08": ("Coq theorems, generic in the value type and the size function: values_roundtrip (whole-column read = appended values for every partitioning and flush threshold), chunks_nonempty, range_read (the two-level searchsorted range read of iter_values equals the slice for EVERY store shape incl. empty partitions/chunks and every a<b), num_records_eq, summary_bounds (min/max bound every non-sentinel integer and are attained; max_number exact), summary_partition_independent; the hand-written model is tied to IcfFieldWriter / IntermediateColumnarFormatField by an in-process differential (observed sys.getsizeof fed to the model, all O(n^2) ranges in shuffled order) and end to end against the source records and a 1-partition reference.",
+         "Trusted: Coq kernel, extraction, harness; pickle/Blosc round-tripping a chunk; cyvcf2 as the 'source read'. Phasing of calls with < 2 alleles is a don't-care (cyvcf2 reports an indeterminate bit, finding F8)."),
 }
 
 def main():
